@@ -4,6 +4,8 @@
 (* [id, kind |-> "arith", method, obs, parts, weights]  obs aggregates parts (one time index): sum / average / weighted   *)
 (* [id, kind |-> "order", vals]             cascade stage values at one time index: non-increasing                        *)
 (* [id, kind |-> "digest", before, after]   plotting / exporting must leave the result unchanged                          *)
+(* [id, kind |-> "history", before, after]  values reported for an item before and after the result was copied / pickled /   *)
+(*                                          saved (or by the copy): the value depends only on the item, not on the history  *)
 EXTENDS Big, Integers, Sequences, TLC, Json, IOUtils, FiniteSets
 Trace == ndJsonDeserialize(IOEnv.TRACE_FILE)
 VARIABLES i, bad
@@ -20,6 +22,7 @@ Failing(e) ==
    IF e.kind = "same" THEN (IF e.a = e.b THEN {} ELSE {"DependsOnOtherItems"})
    ELSE IF e.kind = "arith" THEN (IF ArithOK(e) THEN {} ELSE {"Arithmetic"})
    ELSE IF e.kind = "order" THEN (IF \A k \in 1..(Len(e.vals) - 1) : SLe(e.vals[k+1], SAdd(e.vals[k], Tol(e.vals[k], K1e9, 8))) THEN {} ELSE {"CascadeOrder"})
+   ELSE IF e.kind = "history" THEN (IF e.before = e.after THEN {} ELSE {"DependsOnHistory"})
    ELSE (IF e.before = e.after THEN {} ELSE {"ResultModified"})
 Init == i = 1 /\ bad = {}
 Next == /\ i <= Len(Trace)
